@@ -3457,6 +3457,130 @@ fn catch_chain_grid(cx: &mut Ctx) {
     cx.rep.extra.insert("catch_chain_cases".into(), json!(n));
 }
 
+/// Hints inside nested argument patterns and match patterns **with an ellipsis** (leading or trailing,
+/// named or unnamed), the hinted slot at every position, in every target form, against containers
+/// shorter than / as long as / longer than the pattern (by 1 and 2), with one mismatching element at
+/// each index (or none). Oracle: the hinted slot `j` of `n` slots denotes element `j` with a trailing
+/// ellipsis and element `size - n + j` (counted from the end) with a leading one; the hint `Number`
+/// holds for the integers and fails for the one string. Arguments assert (only with checks enabled; a
+/// container that is too short is a size error in both modes), match arms check (too short: next arm).
+fn ellipsis_grid(cx: &mut Ctx) {
+    let mut n_cases = 0u64;
+    for n in 1..=3usize {
+        for j in 0..n {
+            for form in ["v7", "_", "_w7"] {
+                for leading in [true, false] {
+                    for named in [true, false] {
+                        // the pattern
+                        let mut slots: Vec<String> = vec![];
+                        for k in 0..n {
+                            if k == j {
+                                slots.push(format!("{}: Number", form));
+                            } else {
+                                slots.push(format!("v{}", k + 1));
+                            }
+                        }
+                        let ell = if named { "r9..." } else { "..." };
+                        let pat = if leading { format!("({}, {})", ell, slots.join(", ")) } else { format!("({}, {})", slots.join(", "), ell) };
+                        for d in [-1i64, 0, 1, 2] {
+                            let size = (n as i64 + d) as usize;
+                            for bad in 0..=size {
+                                // `bad == size`: no mismatching element
+                                for list in [false, true] {
+                                    let elems: Vec<String> = (0..size).map(|i| if i == bad { "'x'".to_string() } else { (i + 1).to_string() }).collect();
+                                    let canon_elem = |i: usize| if i == bad { "sx78".to_string() } else { format!("i{}", i + 1) };
+                                    let cont = if list {
+                                        format!("[{}]", elems.join(", "))
+                                    } else if size == 1 {
+                                        format!("({},)", elems[0])
+                                    } else {
+                                        format!("({})", elems.join(", "))
+                                    };
+                                    let fits = size >= n;
+                                    let denoted = |k: usize| if leading { size - n + k } else { k };
+                                    let hint_ok = fits && denoted(j) != bad;
+                                    // what the body prints: every named slot, then the size of the rest
+                                    let mut prints = String::new();
+                                    let mut expected_out: Vec<String> = vec!["i1".to_string()];
+                                    for k in 0..n {
+                                        let name = if k == j { if form == "v7" { Some("v7".to_string()) } else { None } } else { Some(format!("v{}", k + 1)) };
+                                        if let Some(name) = name {
+                                            prints.push_str(&format!("    print(repr({}))\n", name));
+                                            if fits {
+                                                expected_out.push(canon_elem(denoted(k)));
+                                            }
+                                        }
+                                    }
+                                    if named {
+                                        prints.push_str("    print(repr(size(r9)))\n");
+                                        if fits {
+                                            expected_out.push(format!("i{}", size - n));
+                                        }
+                                    }
+                                    for pos in ["arg", "match"] {
+                                        let script = if pos == "arg" {
+                                            format!("f = |v0, {}|\n  if true\n    print(repr(1))\n{}  v0\nprint(repr(0))\nf(7, {})\n", pat, prints, cont)
+                                        } else {
+                                            format!("print(repr(0))\nmatch {}\n  {} then\n    print(repr(1))\n{}    7\n  else\n    print(repr(11))\n    8\n", cont, pat, prints)
+                                        };
+                                        // expected (result, output) with checks on / off
+                                        let ok_out = format!("i0 {}", expected_out.join(" "));
+                                        let (exp_on, exp_off): ((String, String), (String, String)) = if pos == "arg" {
+                                            if !fits {
+                                                (("err-size".into(), "i0".into()), ("err-size".into(), "i0".into()))
+                                            } else if hint_ok {
+                                                (("ok i7".into(), ok_out.clone()), ("ok i7".into(), ok_out.clone()))
+                                            } else {
+                                                (("err expected Number, found String".into(), "i0".into()), ("ok i7".into(), ok_out.clone()))
+                                            }
+                                        } else if hint_ok {
+                                            (("ok i7".into(), ok_out.clone()), ("ok i7".into(), ok_out.clone()))
+                                        } else {
+                                            (("ok i8".into(), "i0 i11".into()), ("ok i8".into(), "i0 i11".into()))
+                                        };
+                                        let key = format!("ellipsis {} {} in {} bad@{}", pos, pat, cont, if bad == size { "-".to_string() } else { bad.to_string() });
+                                        cx.rep.case(&key, true);
+                                        cx.rep.bump("kind=ellipsis-pattern-hints");
+                                        n_cases += 1;
+                                        let mut devs = vec![];
+                                        for (checks, exp) in [(true, &exp_on), (false, &exp_off)] {
+                                            let (o, lines, _) = run_koto(&script, checks);
+                                            let got = (
+                                                match &o {
+                                                    Out::Ok(c) => format!("ok {}", c),
+                                                    Out::Err(l) if l.contains("container has a size") => "err-size".to_string(),
+                                                    Out::Err(l) => format!("err {}", l),
+                                                    other => format!("{:?}", other),
+                                                },
+                                                trace_text(&lines),
+                                            );
+                                            if &got != exp {
+                                                devs.push(json!({"checks": checks, "expected": [exp.0, exp.1], "impl": [got.0, got.1]}));
+                                            }
+                                        }
+                                        if !devs.is_empty() {
+                                            cx.d_fail += 1;
+                                            if cx.d_fail <= 5 {
+                                                cx.rep.violation(
+                                                    "D",
+                                                    "C16:ellipsis-pattern-hint",
+                                                    json!({"case": key, "script": script, "deviations": devs,
+                                                           "note": "a hint in a pattern with an ellipsis is checked against exactly the element its position denotes (counted from the end after a leading ellipsis)"}),
+                                                );
+                                            }
+                                        }
+                                    }
+                                }
+                            }
+                        }
+                    }
+                }
+            }
+        }
+    }
+    cx.rep.extra.insert("ellipsis_pattern_cases".into(), json!(n_cases));
+}
+
 /// `CompileArgs` is a builder: the switches must be independent. The exports of a script compiled
 /// with `export_top_level_ids(true)` are the same whichever side of it `enable_type_checks(b)` is set,
 /// and contain the script's top-level ids.
@@ -3607,6 +3731,7 @@ fn main() {
             "F-C16-6" => ("", "a hinted wildcard over several match subjects sees the internal TemporaryTuple"),
             "F-C16-7" => ("expected Indexable, found Range", "`Indexable` still rejects a range although `r[0]` works"),
             "F-C16-8" => ("expected Callable, found Generator", "`Callable` still rejects a generator function although it can be called"),
+            "F-C16-9" => ("", "`Iterable` / `Indexable` still accept a range without a start, which cannot be iterated or indexed"),
             _ => continue,
         };
         let Some(w) = e["witness"].as_str() else { continue };
@@ -3623,7 +3748,9 @@ fn main() {
         if !failing {
             continue;
         }
-        if !fixed && (id == "F-C16-6" || on == Out::Err(line.into())) {
+        // F-C16-9: both `let` pass (the error is not a failed hint) and the loop raises
+        let f9 = id == "F-C16-9" && matches!(&on, Out::Err(l) if !l.starts_with("expected I")) && on == off;
+        if !fixed && (id == "F-C16-6" || f9 || (!line.is_empty() && on == Out::Err(line.into()))) {
             cx.rep.known(&id, what);
         } else {
             cx.d_fail += 1;
@@ -3696,6 +3823,7 @@ fn main() {
     }
     cx.flush();
     catch_chain_grid(&mut cx);
+    ellipsis_grid(&mut cx);
     map_pattern_grid(&mut cx, &form_values, &names);
     multi_subject_wildcard_grid(&mut cx, &form_values, &names);
     // deeper chains on the two cheapest positions (one assert, one check) with the names that matter
